@@ -156,6 +156,8 @@ func frac(class string, total math.Int, rnd func(int) int) math.Int {
 		return total
 	case "over":
 		return total.AddRaw(1)
+	case "twice": // an over-ask by a wide margin (nothing when there is nothing)
+		return total.MulRaw(2)
 	case "tiny":
 		return total.QuoRaw(1_000_000)
 	}
